@@ -102,7 +102,8 @@ func genScript(name string, faultP float64, idx int) *Script {
 		s.GenErr = simrt.Flip("plugin.gen-err", faultP/2)
 	}
 	if simrt.Flip("plugin.exit-status", faultP/4) {
-		s.ExitStatus = 1 + simrt.Choice("plugin.exit-code", 3)
+		// 1..3, or -1: killed by a signal after an otherwise flawless conversation
+		s.ExitStatus = []int{1, 2, 3, -1}[simrt.Choice("plugin.exit-code", 4)]
 	}
 	nf := simrt.Choice("plugin.files", 3)
 	for k := 0; k < nf; k++ {
